@@ -471,7 +471,10 @@ def gen_case(rng, max_procs=16, flavors=None, user_tags=None):
             procs.append({"del": [rng.choice(users + ["db"]), rng.choice(STACKS), rng.choice(flavors)]})
             continue
         f = rng.choice(flavors)
-        if procs and rng.random() < 0.06:
+        if procs and rng.random() < 0.06 and not (user_tags and tree_variant() is PINNED):
+            # (on the pinned tree a user tag's chain file sits among the stack's own; an administrator who does not
+            # know the name lists it in ups_db/global.tags, which re-registers it as a global tag for its owner: a
+            # third state that the model does not have.  Histories with user tags have no administrator loads there.)
             procs.append({"u": rng.choice(users), "adm": True, "f": f, "ops": [], "q": False, "crash": None})
             continue
         p = {"u": rng.choice(users), "f": f, "ops": [], "q": rng.random() < 0.3, "crash": None}
@@ -560,7 +563,8 @@ def proc_line(p):
 
 
 def case_line(case, v_rm=False, v_init=False, v_uloc=False, v_ustale=False, v_noread=False, v_shared=False):
-    univ = ";".join([",".join(NAMES), ",".join(VERSIONS), ",".join(TAGS), ",".join(ALLFLAVORS), ",".join(ALLUTAGS)])
+    univ = ";".join([",".join(NAMES), ",".join(VERSIONS), ",".join(TAGS), ",".join(ALLFLAVORS), ",".join(ALLUTAGS),
+                     "+".join("%s=%s" % (u, ",".join(UTAGS[u])) for u in USERS)])
     b = lambda x: "1" if x else "0"
     return "\t".join(["case", b(v_rm), b(v_init), ",".join(STACKS), univ,
                       "|".join(proc_line(p) for p in case["procs"]), b(v_uloc), b(v_ustale), b(v_noread), b(v_shared)])
@@ -827,7 +831,19 @@ def oracle(case, obs):
     return foreign
 
 
+# the model follows the tree under test.  /repo as it is: the user-tag repairs proposed in proposed_fixes/C07-*.diff are
+# not applied (the pinned suite pins the defect of Eups.assignTag, open finding D42), so the model runs with the pinned
+# behaviours; EUPS_VERIF_C07_REPAIRED=1 selects the repaired model, for a run against a tree that has the five patches
+PINNED = {"v_uloc": True, "v_ustale": True, "v_noread": True, "v_shared": True}
+REPAIRED = {}
+
+
+def tree_variant():
+    return REPAIRED if os.environ.get("EUPS_VERIF_C07_REPAIRED") == "1" else PINNED
+
+
 def evaluate(ctx, cases, **variant):
+    variant = variant or tree_variant()
     mres = [parse_model(l) for l in ctx.model([case_line(c, **variant) for c in cases])]
     ires = pool().map(impl_case, list(zip(cases, mres)), chunksize=1)
     return [(c, m, o, first_diff(c, m, o), oracle(c, o)) for c, m, o in zip(cases, mres, ires)]
@@ -880,6 +896,37 @@ def shape(case):
 KIND_SHRUNK = {}
 
 
+def _strip_user(tags):
+    return sorted(t for t in tags if t not in ALLUTAGS and not t.startswith("user:"))
+
+
+def classify(c, m, dis, r):
+    """Is the oracle failure r = (process, kind, only-in-files, only-in-cache) the open finding D42?  The root cause:
+    Eups.assignTag writes the chain file of a user tag among the stack's own chain files while Eups.unassignTag,
+    Database.findTags / getTagAssignments and the cache keep user tags in the user's tag directory.  Accepted only if
+    (1) the implementation did, file by file and answer by answer, what the model with the pinned assignTag does, up
+    to the failing process; (2) a chain file named like a user tag is in a stack's ups_db by then; (3) the two sets of
+    answers differ in nothing but tags of those names (the same declarations, directories, global tags)."""
+    i, kind, only_f, only_c = r
+    if tree_variant() is not PINNED or kind.startswith("unconsulted-flavor-") or kind.endswith("load-raises"):
+        return kind
+    if dis is not None and dis[0] <= i:
+        return kind
+    if not any(k.split("/")[1] == "C" and k.split("/")[-1] in ALLUTAGS
+               for st in m[:i + 1] for k in st["rec"] if not k.startswith("U:")):
+        return kind
+    what = kind.split("-")[1]
+    if what in ("utag", "putag"):
+        pass                                            # answers of findTaggedProduct(<user tag>)
+    elif what in ("decl", "pdecl", "list"):
+        strip = lambda rows: sorted(r_[:-1] + [_strip_user(r_[-1])] for r_ in rows)
+        if strip(only_f) != strip(only_c):
+            return kind
+    else:
+        return kind                                     # global tags: not explained by that root cause
+    return "user-tag-location/" + kind
+
+
 def process(ctx, results, budget=[6]):
     for c, m, o, dis, orc in results:
         nops = sum(len(p.get("ops", [])) + 1 for p in c["procs"])
@@ -905,14 +952,20 @@ def process(ctx, results, budget=[6]):
         if orc is not None:
             cc, r = c, orc
             kind = orc[1]
-            if budget[0] > 0 and KIND_SHRUNK.get(kind, 0) < 2:       # two shrunk witnesses per clause are enough
+            open_finding = classify(c, m, dis, orc).startswith(("user-tag-location/", "unconsulted-flavor-"))
+            # two shrunk witnesses per clause are enough; the open findings have theirs in the corpus
+            if budget[0] > 0 and KIND_SHRUNK.get(kind, 0) < 2 and not open_finding:
                 KIND_SHRUNK[kind] = KIND_SHRUNK.get(kind, 0) + 1
 
                 def bad(x, kind=kind):
                     r = evaluate(ctx, [x])[0][4]
                     return r is not None and r[1] == kind
                 cc = shrink(ctx, c, bad)
-                r = evaluate(ctx, [cc])[0][4] or orc
+                c2, m2, o2, dis2, orc2 = evaluate(ctx, [cc])[0]
+                r = orc2 or orc
+                final_kind = classify(cc, m2, dis2, r) if orc2 else r[1]
+            else:
+                final_kind = classify(c, m, dis, r)
             cc = {"procs": cc["procs"][:r[0] + 1]}
             if r[1].endswith("load-raises"):
                 what = ("process %d: building the Eups instance (which loads or rebuilds the caches) raised; "
@@ -921,7 +974,7 @@ def process(ctx, results, budget=[6]):
                 what = ("process %d (a reader in a new process): the answers through the cache differ from the "
                         "answers read from the database files; expected = rows only the files give, observed = "
                         "rows only the cache gives" % r[0])
-            ctx.fail(r[1], cc, expected=r[2], observed=r[3], what=what)
+            ctx.fail(final_kind, cc, expected=r[2], observed=r[3], what=what)
 
 
 def corpus_cases():
@@ -969,6 +1022,13 @@ def configure(ctx):
         "the theorem is about queries for flavors the asking instance consults (its own flavor and the fall-back "
         "generic); queries about any other flavor are asked as well, compared with the model, and their incoherence is "
         "the open finding matched by c07.unconsulted_flavor",
+        "the model runs with the behaviours of the tree under test: on /repo as it is the four user-tag switches of "
+        "Model/Cache.v are pinned (Eups.assignTag writes a user tag's chain file among the stack's own, open finding "
+        "D42; nothing then ever writes into a tag directory, so the other three are never exercised); "
+        "EUPS_VERIF_C07_REPAIRED=1 selects the repaired model for a tree that has proposed_fixes/C07-user-tag-*.diff, "
+        "-declare-reads-back-tags, -shared-cache-user-tags, -load-user-tags-skip; on the pinned tree the random histories "
+        "with user tags contain no administrator load (an administrator who does not know a user-tag name found among the "
+        "stack's chain files lists it in ups_db/global.tags, which re-registers it as a global tag for its owner: not modelled)",
         "user tags are assigned and removed with Eups.assignTag / unassignTag (eups declare -t / undeclare -t on a "
         "declared version); Eups.declare(tag=<user tag>) of a new version, which declares into the user's own stack "
         "EUPS_USERDATA/ups_db, and tags read from another user (userTags entries with an owner) are outside the model; "
@@ -977,7 +1037,9 @@ def configure(ctx):
         "(death inside the database call is C08)"]
     # open finding: an Eups that loaded its stacks from cache files holds its own flavor and the fall-backs only,
     # and answers "not declared" for any other flavor (after a rebuild in the same process it holds every flavor)
-    ctx.matchers = {"c07.unconsulted_flavor": lambda f: f["kind"].startswith("unconsulted-flavor-")}
+    ctx.matchers = {"c07.unconsulted_flavor": lambda f: f["kind"].startswith("unconsulted-flavor-"),
+                    # the kind is given by classify() above, which checks the mechanism, not the mere presence of user tags
+                    "c07.user_tag_location": lambda f: f["kind"].startswith("user-tag-location/")}
 
 
 def run(ctx):
